@@ -1,12 +1,10 @@
 // C13: lazy partial decoding equals a full reference parse. Mode X: exhaustive product of a message
-// family x definition family x every accessor x {safe, fast} x {Decode function, Decoder object},
+// family x definition family x every lazyref.Accessor x {safe, fast} x {Decode function, Decoder object},
 // judged against a spec-derived reference walk; plus all short byte strings for totality.
 package main
 
 import (
-	"errors"
 	"fmt"
-	"math"
 	"runtime"
 	"sort"
 	"strings"
@@ -15,302 +13,15 @@ import (
 	"github.com/CrowdStrike/csproto/lazyproto"
 
 	"verif/mc/lib/ev"
+	"verif/mc/lib/lazyref"
 	"verif/mc/lib/refwire"
 )
-
-// ---------------------------------------------------------------- reference side
-
-type occ struct {
-	wt      int
-	u       uint64 // varint / fixed value
-	payload []byte // LEN payload
-}
-
-// refFields parses b and groups occurrences per field number. ok=false if b is not well-formed or
-// a field number changes wire type (outside the property's "well-formed" set).
-func refFields(b []byte) (map[int][]occ, bool) {
-	fs, err := refwire.Parse(b)
-	if err != nil {
-		return nil, false
-	}
-	out := map[int][]occ{}
-	for _, f := range fs {
-		if f.WT == refwire.SGroup || f.WT == refwire.EGroup || f.WT > 5 {
-			return nil, false
-		}
-		o := occ{wt: f.WT, u: f.U}
-		if f.WT == refwire.Len {
-			o.payload = b[f.DataFrom:f.End]
-		}
-		if prev := out[f.Num]; len(prev) > 0 && prev[0].wt != f.WT {
-			return nil, false
-		}
-		out[f.Num] = append(out[f.Num], o)
-	}
-	return out, true
-}
-
-type errClass int
-
-const (
-	eNone errClass = iota
-	eNotFound
-	eNotDefined
-	eMismatch
-	eOverflow
-	eAny // some error, kind unspecified (payload does not parse as the requested element type)
-	eNestingOrNotDefined
-)
-
-func (e errClass) String() string {
-	return [...]string{"nil", "ErrTagNotFound", "ErrTagNotDefined", "WireTypeMismatchError", "ErrValueOverflow", "some error", "ErrNestingNotDefined|ErrTagNotDefined"}[e]
-}
-
-func classOK(err error, want errClass) bool {
-	switch want {
-	case eNone:
-		return err == nil
-	case eNotFound:
-		return errors.Is(err, lazyproto.ErrTagNotFound)
-	case eNotDefined:
-		return errors.Is(err, lazyproto.ErrTagNotDefined)
-	case eNestingOrNotDefined:
-		return errors.Is(err, lazyproto.ErrNestingNotDefined) || errors.Is(err, lazyproto.ErrTagNotDefined)
-	case eMismatch:
-		var m *lazyproto.WireTypeMismatchError
-		return errors.As(err, &m)
-	case eOverflow:
-		return errors.Is(err, csproto.ErrValueOverflow)
-	case eAny:
-		return err != nil
-	}
-	return false
-}
-
-// ---------------------------------------------------------------- accessors
-
-type val struct {
-	nums []uint64
-	strs []string
-	isS  bool
-}
-
-type accessor struct {
-	name    string
-	A       int
-	slice   bool
-	conv    func(u uint64) (uint64, bool) // reference conversion of the raw wire value; false = overflow
-	viaRes  func(r *lazyproto.DecodeResult, tag int) (val, error)
-	viaFD   func(fd *lazyproto.FieldData) (val, error)
-	strKind bool
-}
-
-func one(u uint64, err error) (val, error) { return val{nums: []uint64{u}}, err }
-func b2u(b bool) uint64 {
-	if b {
-		return 1
-	}
-	return 0
-}
-func mapS[T any](xs []T, f func(T) uint64) []uint64 {
-	out := make([]uint64, len(xs))
-	for i, x := range xs {
-		out[i] = f(x)
-	}
-	return out
-}
-
-func buildAccessors() []accessor {
-	id := func(u uint64) (uint64, bool) { return u, true }
-	var as []accessor
-	add := func(name string, A int, conv func(uint64) (uint64, bool),
-		sr func(r *lazyproto.DecodeResult, tag int) (val, error), sf func(fd *lazyproto.FieldData) (val, error),
-		lr func(r *lazyproto.DecodeResult, tag int) (val, error), lf func(fd *lazyproto.FieldData) (val, error)) {
-		as = append(as, accessor{name: name + "Value", A: A, conv: conv, viaRes: sr, viaFD: sf, strKind: A == refwire.Len})
-		as = append(as, accessor{name: name + "Values", A: A, slice: true, conv: conv, viaRes: lr, viaFD: lf, strKind: A == refwire.Len})
-	}
-	type R = *lazyproto.DecodeResult
-	type F = *lazyproto.FieldData
-	add("Bool", 0, func(u uint64) (uint64, bool) { return b2u(u != 0), true },
-		func(r R, t int) (val, error) { v, e := r.BoolValue(t); return one(b2u(v), e) },
-		func(f F) (val, error) { v, e := f.BoolValue(); return one(b2u(v), e) },
-		func(r R, t int) (val, error) { v, e := r.BoolValues(t); return val{nums: mapS(v, b2u)}, e },
-		func(f F) (val, error) { v, e := f.BoolValues(); return val{nums: mapS(v, b2u)}, e })
-	add("UInt32", 0, func(u uint64) (uint64, bool) { return u, u <= math.MaxUint32 },
-		func(r R, t int) (val, error) { v, e := r.UInt32Value(t); return one(uint64(v), e) },
-		func(f F) (val, error) { v, e := f.UInt32Value(); return one(uint64(v), e) },
-		func(r R, t int) (val, error) {
-			v, e := r.UInt32Values(t)
-			return val{nums: mapS(v, func(x uint32) uint64 { return uint64(x) })}, e
-		},
-		func(f F) (val, error) {
-			v, e := f.UInt32Values()
-			return val{nums: mapS(v, func(x uint32) uint64 { return uint64(x) })}, e
-		})
-	i32 := func(x int32) uint64 { return uint64(int64(x)) }
-	add("Int32", 0, func(u uint64) (uint64, bool) { return u, int64(u) <= math.MaxInt32 && int64(u) >= math.MinInt32 },
-		func(r R, t int) (val, error) { v, e := r.Int32Value(t); return one(i32(v), e) },
-		func(f F) (val, error) { v, e := f.Int32Value(); return one(i32(v), e) },
-		func(r R, t int) (val, error) { v, e := r.Int32Values(t); return val{nums: mapS(v, i32)}, e },
-		func(f F) (val, error) { v, e := f.Int32Values(); return val{nums: mapS(v, i32)}, e })
-	add("SInt32", 0, func(u uint64) (uint64, bool) { return uint64(int64(refwire.UnZigZag32(u))), true },
-		func(r R, t int) (val, error) { v, e := r.SInt32Value(t); return one(i32(v), e) },
-		func(f F) (val, error) { v, e := f.SInt32Value(); return one(i32(v), e) },
-		func(r R, t int) (val, error) { v, e := r.SInt32Values(t); return val{nums: mapS(v, i32)}, e },
-		func(f F) (val, error) { v, e := f.SInt32Values(); return val{nums: mapS(v, i32)}, e })
-	add("UInt64", 0, id,
-		func(r R, t int) (val, error) { v, e := r.UInt64Value(t); return one(v, e) },
-		func(f F) (val, error) { v, e := f.UInt64Value(); return one(v, e) },
-		func(r R, t int) (val, error) { v, e := r.UInt64Values(t); return val{nums: append([]uint64{}, v...)}, e },
-		func(f F) (val, error) { v, e := f.UInt64Values(); return val{nums: append([]uint64{}, v...)}, e })
-	i64 := func(x int64) uint64 { return uint64(x) }
-	add("Int64", 0, id,
-		func(r R, t int) (val, error) { v, e := r.Int64Value(t); return one(i64(v), e) },
-		func(f F) (val, error) { v, e := f.Int64Value(); return one(i64(v), e) },
-		func(r R, t int) (val, error) { v, e := r.Int64Values(t); return val{nums: mapS(v, i64)}, e },
-		func(f F) (val, error) { v, e := f.Int64Values(); return val{nums: mapS(v, i64)}, e })
-	add("SInt64", 0, func(u uint64) (uint64, bool) { return uint64(refwire.UnZigZag64(u)), true },
-		func(r R, t int) (val, error) { v, e := r.SInt64Value(t); return one(i64(v), e) },
-		func(f F) (val, error) { v, e := f.SInt64Value(); return one(i64(v), e) },
-		func(r R, t int) (val, error) { v, e := r.SInt64Values(t); return val{nums: mapS(v, i64)}, e },
-		func(f F) (val, error) { v, e := f.SInt64Values(); return val{nums: mapS(v, i64)}, e })
-	u32 := func(x uint32) uint64 { return uint64(x) }
-	add("Fixed32", 5, id,
-		func(r R, t int) (val, error) { v, e := r.Fixed32Value(t); return one(u32(v), e) },
-		func(f F) (val, error) { v, e := f.Fixed32Value(); return one(u32(v), e) },
-		func(r R, t int) (val, error) { v, e := r.Fixed32Values(t); return val{nums: mapS(v, u32)}, e },
-		func(f F) (val, error) { v, e := f.Fixed32Values(); return val{nums: mapS(v, u32)}, e })
-	f32 := func(x float32) uint64 { return uint64(math.Float32bits(x)) }
-	add("Float32", 5, id,
-		func(r R, t int) (val, error) { v, e := r.Float32Value(t); return one(f32(v), e) },
-		func(f F) (val, error) { v, e := f.Float32Value(); return one(f32(v), e) },
-		func(r R, t int) (val, error) { v, e := r.Float32Values(t); return val{nums: mapS(v, f32)}, e },
-		func(f F) (val, error) { v, e := f.Float32Values(); return val{nums: mapS(v, f32)}, e })
-	add("Fixed64", 1, id,
-		func(r R, t int) (val, error) { v, e := r.Fixed64Value(t); return one(v, e) },
-		func(f F) (val, error) { v, e := f.Fixed64Value(); return one(v, e) },
-		func(r R, t int) (val, error) { v, e := r.Fixed64Values(t); return val{nums: append([]uint64{}, v...)}, e },
-		func(f F) (val, error) { v, e := f.Fixed64Values(); return val{nums: append([]uint64{}, v...)}, e })
-	f64 := func(x float64) uint64 { return math.Float64bits(x) }
-	add("Float64", 1, id,
-		func(r R, t int) (val, error) { v, e := r.Float64Value(t); return one(f64(v), e) },
-		func(f F) (val, error) { v, e := f.Float64Value(); return one(f64(v), e) },
-		func(r R, t int) (val, error) { v, e := r.Float64Values(t); return val{nums: mapS(v, f64)}, e },
-		func(f F) (val, error) { v, e := f.Float64Values(); return val{nums: mapS(v, f64)}, e })
-	ss := func(v []string) val { return val{strs: append([]string{}, v...), isS: true} }
-	bs := func(v [][]byte) val {
-		out := make([]string, len(v))
-		for i := range v {
-			out[i] = string(v[i])
-		}
-		return val{strs: out, isS: true}
-	}
-	add("String", 2, nil,
-		func(r R, t int) (val, error) { v, e := r.StringValue(t); return val{strs: []string{v}, isS: true}, e },
-		func(f F) (val, error) { v, e := f.StringValue(); return val{strs: []string{v}, isS: true}, e },
-		func(r R, t int) (val, error) { v, e := r.StringValues(t); return ss(v), e },
-		func(f F) (val, error) { v, e := f.StringValues(); return ss(v), e })
-	add("Bytes", 2, nil,
-		func(r R, t int) (val, error) { v, e := r.BytesValue(t); return val{strs: []string{string(v)}, isS: true}, e },
-		func(f F) (val, error) { v, e := f.BytesValue(); return val{strs: []string{string(v)}, isS: true}, e },
-		func(r R, t int) (val, error) { v, e := r.BytesValues(t); return bs(v), e },
-		func(f F) (val, error) { v, e := f.BytesValues(); return bs(v), e })
-	return as
-}
-
-// expected computes the reference answer of accessor a for the occurrences of a present field.
-func expected(a *accessor, occs []occ) (val, errClass) {
-	W := occs[0].wt
-	if !a.slice {
-		if W != a.A {
-			return val{}, eMismatch
-		}
-		last := occs[len(occs)-1]
-		if a.strKind {
-			return val{strs: []string{string(last.payload)}, isS: true}, eNone
-		}
-		v, ok := a.conv(last.u)
-		if !ok {
-			return val{}, eOverflow
-		}
-		return val{nums: []uint64{v}}, eNone
-	}
-	if a.strKind {
-		if W != refwire.Len {
-			return val{}, eMismatch
-		}
-		out := val{isS: true, strs: []string{}}
-		for _, o := range occs {
-			out.strs = append(out.strs, string(o.payload))
-		}
-		return out, eNone
-	}
-	out := val{nums: []uint64{}}
-	switch {
-	case W == a.A:
-		for _, o := range occs {
-			v, ok := a.conv(o.u)
-			if !ok {
-				return val{}, eOverflow
-			}
-			out.nums = append(out.nums, v)
-		}
-		return out, eNone
-	case W == refwire.Len:
-		for _, o := range occs {
-			p := o.payload
-			for len(p) > 0 {
-				var raw uint64
-				var n int
-				var err error
-				switch a.A {
-				case refwire.Varint:
-					raw, n, err = refwire.ConsumeVarint(p)
-				case refwire.Fixed32:
-					var x uint32
-					x, n, err = refwire.ConsumeFixed32(p)
-					raw = uint64(x)
-				case refwire.Fixed64:
-					raw, n, err = refwire.ConsumeFixed64(p)
-				}
-				if err != nil {
-					return val{}, eAny
-				}
-				v, ok := a.conv(raw)
-				if !ok {
-					return val{}, eOverflow
-				}
-				out.nums = append(out.nums, v)
-				p = p[n:]
-			}
-		}
-		return out, eNone
-	}
-	return val{}, eMismatch
-}
-
-func sameVal(a, b val) bool {
-	if a.isS != b.isS || len(a.nums) != len(b.nums) || len(a.strs) != len(b.strs) {
-		return false
-	}
-	for i := range a.nums {
-		if a.nums[i] != b.nums[i] {
-			return false
-		}
-	}
-	for i := range a.strs {
-		if a.strs[i] != b.strs[i] {
-			return false
-		}
-	}
-	return true
-}
 
 // ---------------------------------------------------------------- checking one decode
 
 type checker struct {
 	sh    *ev.Shard
-	accs  []accessor
+	accs  []lazyref.Accessor
 	calls int64
 	nontr int64
 	// context for reports
@@ -350,27 +61,27 @@ func absTags(def lazyproto.Def) (flat map[int]bool, nested map[int]lazyproto.Def
 
 var probeTags = []int{1, 2, 3, 4, 300, 1<<29 - 1}
 
-// checkResult compares every accessor on r with the reference for (fields, def). full=false: only
+// checkResult compares every lazyref.Accessor on r with the reference for (fields, def). full=false: only
 // require absence of panics (arbitrary bytes).
-func (c *checker) checkResult(r *lazyproto.DecodeResult, def lazyproto.Def, fields map[int][]occ, path []int, root *lazyproto.DecodeResult, depth int) {
+func (c *checker) checkResult(r *lazyproto.DecodeResult, def lazyproto.Def, fields map[int][]lazyref.Occ, path []int, root *lazyproto.DecodeResult, depth int) {
 	flat, nested := absTags(def)
 	for _, tag := range probeTags {
 		for _, qt := range []int{tag, -tag} {
 			occs := fields[tag]
-			var wantPresence errClass
+			var wantPresence lazyref.ErrClass
 			switch {
 			case !flat[tag]:
-				wantPresence = eNotDefined
+				wantPresence = lazyref.ENotDefined
 			case len(occs) == 0:
-				wantPresence = eNotFound
+				wantPresence = lazyref.ENotFound
 			}
 			where := fmt.Sprintf("path=%v tag=%d", path, qt)
 			var fd *lazyproto.FieldData
 			var ferr error
 			c.guard("GetFieldData("+where+")", func() { fd, ferr = r.GetFieldData(qt) })
 			c.calls++
-			if !classOK(ferr, wantPresence) {
-				c.fail("GetFieldData/wrong-error", where, fmt.Sprintf("got %v, expected %s", ferr, wantPresence))
+			if !lazyref.ClassOK(ferr, wantPresence) {
+				c.fail("GetFieldData/wrong-error", where, fmt.Sprintf("got %v, lazyref.Expected %s", ferr, wantPresence))
 			}
 			if len(path) > 0 && qt > 0 && root != nil {
 				// the same through the root with a full path
@@ -378,8 +89,8 @@ func (c *checker) checkResult(r *lazyproto.DecodeResult, def lazyproto.Def, fiel
 				var ferr2 error
 				c.guard("FieldData("+where+")", func() { _, ferr2 = root.FieldData(full...) })
 				c.calls++
-				if !classOK(ferr2, wantPresence) {
-					c.fail("FieldData(path)/wrong-error", where, fmt.Sprintf("got %v, expected %s", ferr2, wantPresence))
+				if !lazyref.ClassOK(ferr2, wantPresence) {
+					c.fail("FieldData(path)/wrong-error", where, fmt.Sprintf("got %v, lazyref.Expected %s", ferr2, wantPresence))
 				}
 			}
 			if qt < 0 && !(flat[tag] && len(occs) > 0) {
@@ -387,36 +98,36 @@ func (c *checker) checkResult(r *lazyproto.DecodeResult, def lazyproto.Def, fiel
 			}
 			for ai := range c.accs {
 				a := &c.accs[ai]
-				if qt < 0 && !a.strKind {
+				if qt < 0 && !a.StrKind {
 					continue // negative tags are for raw access: the typed suite runs on the positive tag
 				}
-				var want val
+				var want lazyref.Val
 				wantErr := wantPresence
-				if wantErr == eNone {
-					want, wantErr = expected(a, occs)
+				if wantErr == lazyref.ENone {
+					want, wantErr = lazyref.Expected(a, occs)
 					c.nontr++
 				}
 				for via := 0; via < 2; via++ {
 					if via == 1 && (fd == nil || ferr != nil) {
 						continue
 					}
-					var got val
+					var got lazyref.Val
 					var err error
-					w := fmt.Sprintf("%s %s via=%d", a.name, where, via)
-					c.guard(a.name+"("+where+")", func() {
+					w := fmt.Sprintf("%s %s via=%d", a.Name, where, via)
+					c.guard(a.Name+"("+where+")", func() {
 						if via == 0 {
-							got, err = a.viaRes(r, qt)
+							got, err = a.ViaRes(r, qt)
 						} else {
-							got, err = a.viaFD(fd)
+							got, err = a.ViaFD(fd)
 						}
 					})
 					c.calls++
-					if !classOK(err, wantErr) {
-						c.fail(a.name+"/wrong-error/expected-"+wantErr.String(), w, fmt.Sprintf("got error %v (value %v), expected %s %v", err, got, wantErr, want))
+					if !lazyref.ClassOK(err, wantErr) {
+						c.fail(a.Name+"/wrong-error/lazyref.Expected-"+wantErr.String(), w, fmt.Sprintf("got error %v (value %v), lazyref.Expected %s %v", err, got, wantErr, want))
 						continue
 					}
-					if wantErr == eNone && !sameVal(got, want) {
-						c.fail(a.name+"/wrong-value", w, fmt.Sprintf("got %v expected %v", got, want))
+					if wantErr == lazyref.ENone && !lazyref.SameVal(got, want) {
+						c.fail(a.Name+"/wrong-value", w, fmt.Sprintf("got %v lazyref.Expected %v", got, want))
 					}
 				}
 			}
@@ -440,7 +151,7 @@ func (c *checker) checkResult(r *lazyproto.DecodeResult, def lazyproto.Def, fiel
 	sort.Ints(wantTags)
 	sort.Ints(seen)
 	if fmt.Sprint(seen) != fmt.Sprint(wantTags) && len(def) > 0 && !(len(path) == 0 && c.msgHex == "") { // the empty top-level message yields a nil/empty result by design
-		c.fail("Range/wrong-tags", fmt.Sprintf("path=%v", path), fmt.Sprintf("visited %v expected %v", seen, wantTags))
+		c.fail("Range/wrong-tags", fmt.Sprintf("path=%v", path), fmt.Sprintf("visited %v lazyref.Expected %v", seen, wantTags))
 	}
 	if depth >= 3 {
 		return
@@ -449,18 +160,18 @@ func (c *checker) checkResult(r *lazyproto.DecodeResult, def lazyproto.Def, fiel
 	for _, tag := range probeTags[:4] {
 		occs := fields[tag]
 		sub, isNested := nested[tag]
-		var want errClass
+		var want lazyref.ErrClass
 		switch {
 		case len(nested) == 0:
-			want = eNotDefined
+			want = lazyref.ENotDefined
 		case !flat[tag]:
-			want = eNotDefined
+			want = lazyref.ENotDefined
 		case !isNested:
-			want = eNestingOrNotDefined
+			want = lazyref.ENestingOrNotDefined
 		case len(occs) == 0:
-			want = eNotFound
-		case occs[0].wt != refwire.Len:
-			want = eMismatch
+			want = lazyref.ENotFound
+		case occs[0].WT != refwire.Len:
+			want = lazyref.EMismatch
 		}
 		where := fmt.Sprintf("path=%v tag=%d", path, tag)
 		var nr *lazyproto.DecodeResult
@@ -469,20 +180,20 @@ func (c *checker) checkResult(r *lazyproto.DecodeResult, def lazyproto.Def, fiel
 			continue
 		}
 		c.calls++
-		var subFields map[int][]occ
+		var subFields map[int][]lazyref.Occ
 		subOK := false
-		if want == eNone {
-			subFields, subOK = refFields(occs[len(occs)-1].payload)
+		if want == lazyref.ENone {
+			subFields, subOK = lazyref.RefFields(occs[len(occs)-1].Payload)
 			if !subOK {
-				want = eAny // payload is not a well-formed message for this definition: error or result, no panic
+				want = lazyref.EAny // payload is not a well-formed message for this definition: error or result, no panic
 			}
 		}
 		switch {
-		case want == eAny:
+		case want == lazyref.EAny:
 			// nothing to compare
-		case !classOK(err, want):
-			c.fail("NestedResult/wrong-error/expected-"+want.String(), where, fmt.Sprintf("got %v", err))
-		case want == eNone:
+		case !lazyref.ClassOK(err, want):
+			c.fail("NestedResult/wrong-error/lazyref.Expected-"+want.String(), where, fmt.Sprintf("got %v", err))
+		case want == lazyref.ENone:
 			c.checkResult(nr, sub, subFields, append(append([]int{}, path...), tag), root, depth+1)
 		}
 		// NestedResults
@@ -492,14 +203,14 @@ func (c *checker) checkResult(r *lazyproto.DecodeResult, def lazyproto.Def, fiel
 		}
 		c.calls++
 		wantAll := want
-		if want == eNestingOrNotDefined {
-			wantAll = eNestingOrNotDefined
+		if want == lazyref.ENestingOrNotDefined {
+			wantAll = lazyref.ENestingOrNotDefined
 		}
-		if want == eNone || want == eAny {
-			allOK := occs[0].wt == refwire.Len
-			var subs []map[int][]occ
+		if want == lazyref.ENone || want == lazyref.EAny {
+			allOK := occs[0].WT == refwire.Len
+			var subs []map[int][]lazyref.Occ
 			for _, o := range occs {
-				sf, ok := refFields(o.payload)
+				sf, ok := lazyref.RefFields(o.Payload)
 				if !ok {
 					allOK = false
 				}
@@ -507,15 +218,15 @@ func (c *checker) checkResult(r *lazyproto.DecodeResult, def lazyproto.Def, fiel
 			}
 			if allOK {
 				if err != nil || len(nrs) != len(occs) {
-					c.fail("NestedResults/wrong-result", where, fmt.Sprintf("err=%v results=%d expected %d", err, len(nrs), len(occs)))
+					c.fail("NestedResults/wrong-result", where, fmt.Sprintf("err=%v results=%d lazyref.Expected %d", err, len(nrs), len(occs)))
 				} else if depth < 2 {
 					for i, x := range nrs {
 						c.checkResult(x, sub, subs[i], append(append([]int{}, path...), tag), nil, 3) // leaf check only (no FieldData(path), no deeper nesting)
 					}
 				}
 			}
-		} else if !classOK(err, wantAll) && !(wantAll == eMismatch && err != nil) {
-			c.fail("NestedResults/wrong-error/expected-"+wantAll.String(), where, fmt.Sprintf("got %v", err))
+		} else if !lazyref.ClassOK(err, wantAll) && !(wantAll == lazyref.EMismatch && err != nil) {
+			c.fail("NestedResults/wrong-error/lazyref.Expected-"+wantAll.String(), where, fmt.Sprintf("got %v", err))
 		}
 	}
 }
@@ -546,7 +257,7 @@ func defString(d lazyproto.Def) string {
 }
 
 // runPair decodes msg with def through both entry points and both modes.
-func (c *checker) runPair(msg []byte, def lazyproto.Def, decs [2]*lazyproto.Decoder, wellFormed bool, fields map[int][]occ) {
+func (c *checker) runPair(msg []byte, def lazyproto.Def, decs [2]*lazyproto.Decoder, wellFormed bool, fields map[int][]lazyref.Occ) {
 	c.msgHex = fmt.Sprintf("%x", msg)
 	c.defStr = defString(def)
 	for mi, m := range []csproto.DecoderMode{csproto.DecoderModeSafe, csproto.DecoderModeFast} {
@@ -572,7 +283,7 @@ func (c *checker) runPair(msg []byte, def lazyproto.Def, decs [2]*lazyproto.Deco
 	}
 }
 
-func (c *checker) afterDecode(r *lazyproto.DecodeResult, err error, def lazyproto.Def, wellFormed bool, fields map[int][]occ) {
+func (c *checker) afterDecode(r *lazyproto.DecodeResult, err error, def lazyproto.Def, wellFormed bool, fields map[int][]lazyref.Occ) {
 	if wellFormed {
 		if err != nil {
 			c.fail("Decode/error-on-well-formed", "decode", err.Error())
@@ -594,9 +305,9 @@ func (c *checker) noPanicWalk(r *lazyproto.DecodeResult, def lazyproto.Def, dept
 		c.guard("GetFieldData", func() { fd, _ = r.GetFieldData(tag) })
 		for ai := range c.accs {
 			a := &c.accs[ai]
-			c.guard(a.name, func() { _, _ = a.viaRes(r, tag) })
+			c.guard(a.Name, func() { _, _ = a.ViaRes(r, tag) })
 			if fd != nil {
-				c.guard(a.name, func() { _, _ = a.viaFD(fd) })
+				c.guard(a.Name, func() { _, _ = a.ViaFD(fd) })
 			}
 			c.calls += 2
 		}
@@ -642,8 +353,8 @@ func fieldOptions(n int, subs [][]byte) [][][]byte {
 	opts := [][][]byte{
 		nil, // absent
 		{vi(1)},
-		{vi(1 << 32)},                  // overflows 32-bit accessors
-		{vi(3), vi(^uint64(0))},        // two occurrences, last is -1 / max
+		{vi(1 << 32)},                   // overflows 32-bit accessors
+		{vi(3), vi(^uint64(0))},         // two occurrences, last is -1 / max
 		{vi(0xffffffff80000000), vi(5)}, // int32 min sign-extended, then 5
 		{f32(0x7fc00000)},
 		{f32(1), f32(0x80000000)},
@@ -733,7 +444,7 @@ func applyTagOption(d lazyproto.Def, tag, opt int, subs []lazyproto.Def) {
 }
 
 func worker(sh *ev.Shard) {
-	c := &checker{sh: sh, accs: buildAccessors()}
+	c := &checker{sh: sh, accs: lazyref.BuildAccessors()}
 	subs := subDefs()
 	nOpt := 3 + 2*len(subs)
 	defTags := []int{1, 2, 3, 4}
@@ -835,7 +546,7 @@ func worker(sh *ev.Shard) {
 	mine := func() bool { task++; return task%sh.N == sh.Index }
 	doPair := func(mx int, inter bool, di int) {
 		msg := mkMsg(mx, inter)
-		fields, ok := refFields(msg)
+		fields, ok := lazyref.RefFields(msg)
 		if !ok {
 			sh.Internal("generated message not well-formed: %x", msg)
 			return
@@ -879,7 +590,7 @@ func worker(sh *ev.Shard) {
 			cat(refwire.AppendBytes(key(2, 2), vi(300, 8)), vi(1<<29-1, 1<<40)),
 			cat(refwire.AppendBytes(key(1<<29-1, 2), []byte("big")), refwire.AppendFixed64(key(300, 1), 9)),
 		} {
-			fields, _ := refFields(msg)
+			fields, _ := lazyref.RefFields(msg)
 			c.runPair(msg, defs[len(defs)-1], getDecs(len(defs)-1), true, fields)
 			pairs++
 		}
@@ -909,7 +620,7 @@ func worker(sh *ev.Shard) {
 				b[i] = sigma[y%len(sigma)]
 				y /= len(sigma)
 			}
-			fields, ok := refFields(b)
+			fields, ok := lazyref.RefFields(b)
 			for _, di := range arbDefs {
 				sh.Cur("arbitrary", fmt.Sprintf("bytes=%x def=%s", b, defString(defs[di])))
 				c.runPair(append([]byte{}, b...), defs[di], getDecs(di), ok && l > 0, fields)
@@ -935,7 +646,7 @@ func main() {
 	}
 	r := ev.Start("C13", "exploration")
 	r.RunShards(32, runtime.NumCPU(), 8<<30)
-	r.Rule("deterministic product: message family = 3 tags x ~24 field shapes each (absent; varint x1/x2 incl. 32-bit overflow and sign-extended negatives; fixed32/64 x1/x2; LEN empty / string / repeated strings incl. empty / packed varint runs incl. empty run / packed fixed / nested messages to depth 2 (3 thorough) incl. the EMPTY nested message and repeated nested), assembled ascending and interleaved; definition family = 4 tags x 9 options (absent, flat, negative, 3 nested sub-definitions, nested+negative) = 6561 definitions; explored as (all messages x core definitions) U (core messages x all definitions) [quick: every 16th / 12th combination, thorough: all]; x {safe, fast} x {Decoder.Decode, Decode()} x 26 typed accessors via DecodeResult and via FieldData, GetFieldData, FieldData(path), NestedResult(s), Range. Plus all byte strings <= 4 (5) over a 16-symbol alphabet x 12 definitions (full oracle when the reference accepts them, otherwise no-panic). evaluations = accessor calls; distinct_nontrivial = accessor evaluations on a PRESENT field (reference produced a value or a typed error).")
+	r.Rule("deterministic product: message family = 3 tags x ~24 field shapes each (absent; varint x1/x2 incl. 32-bit overflow and sign-extended negatives; fixed32/64 x1/x2; LEN empty / string / repeated strings incl. empty / packed varint runs incl. empty run / packed fixed / nested messages to depth 2 (3 thorough) incl. the EMPTY nested message and repeated nested), assembled ascending and interleaved; definition family = 4 tags x 9 options (absent, flat, negative, 3 nested sub-definitions, nested+negative) = 6561 definitions; explored as (all messages x core definitions) U (core messages x all definitions) [quick: every 16th / 12th combination, thorough: all]; x {safe, fast} x {Decoder.Decode, Decode()} x 26 typed accessors via DecodeResult and via FieldData, GetFieldData, FieldData(path), NestedResult(s), Range. Plus all byte strings <= 4 (5) over a 16-symbol alphabet x 12 definitions (full oracle when the reference accepts them, otherwise no-panic). evaluations = lazyref.Accessor calls; distinct_nontrivial = lazyref.Accessor evaluations on a PRESENT field (reference produced a value or a typed error).")
 	r.Assume("each requested field number uses one wire type throughout (property's own precondition); messages mixing wire types are only in the no-panic set")
 	r.Assume("where the statement is silent (e.g. reading a string as packed varints that happens to parse) the reference's own expansion is used: parse success => values must match, parse failure => any error")
 	r.Finish()
